@@ -110,9 +110,11 @@ def jobs(prop, tier):
         pe = dict(mode="edge", cfg="doc_patch_edge", kind="doc", n=2, dump_module="OrdaReplicaProbeDump.tla")
         sp = dict(mode="edge", cfg="snap_patch_edge", kind="doc", n=2, tool="snapreplay", dump_module="OrdaSnapDump.tla")
         ns = dict(sp, cfg="snap_nosnap_edge")
+        # REST patches of one key in flight at the same time (free-running; the log replay is the oracle)
+        par = dict(mode="go", cfg="parallel REST patches", kind="doc", tool="snapreplay", args=["-patchstress", "60" if q else "2500", "-seed", "{seed}"])
         if q:
-            return [dict(pe, rate=0.25), dict(sp, rate=0.25), dict(ns, rate=0.25)]
-        return [dict(pe, rate=1.0), dict(sp, rate=1.0), dict(ns, rate=1.0), dict(mode="sim", cfg="snap_patch_sim", kind="doc", n=2, num=40, depth=50, tool="snapreplay", dump_module="OrdaSnapDump.tla")]
+            return [dict(pe, rate=0.25), dict(sp, rate=0.25), dict(ns, rate=0.25), par]
+        return [dict(pe, rate=1.0), dict(sp, rate=1.0), dict(ns, rate=1.0), dict(mode="sim", cfg="snap_patch_sim", kind="doc", n=2, num=40, depth=50, tool="snapreplay", dump_module="OrdaSnapDump.tla"), par]
     if prop in ("C11", "C18"):
         def SN(cfg, kind, rate=1.0):
             return dict(mode="edge", cfg=cfg, kind=kind, n=2, rate=rate, tool="snapreplay", dump_module="OrdaSnapDump.tla")
